@@ -569,6 +569,7 @@ func runC18(c *Ctx) {
 		"plus a stream with an embedded struct in the config, a YAML file and Params.FlattenAnonymousFields through YAMLConfigEnvFlag / FileExtensionDecoderConfigEnvFlag / ConfigFileEnvFlagDecoderFactoryParams(DecoderFromExtensionWithParams): per leaf any subset of {default, file, environment, flag}, configs valid only with the file. " +
 		"non-trivial: ez reached the file and the file changes the stack (full != file-less) — distinct by (format, variant, watch, per-leaf layer subsets, kind)"
 	n := c.scale(2500, 30000)
+	c18EmptyPath(c, c.scale(40, 600))
 	if c.Prop != "C18" {
 		n = c.scale(250, 3000)
 	} else {
